@@ -53,11 +53,19 @@ def generate(tier, rng):
             real = [dict(kind="normal", mean=8, std=3), dict(kind="foldnorm", mean=6, std=4), dict(kind="lognormal", mean=10, std=5),
                     dict(kind="weibull", shape=2.5, scale=9),
                     dict(kind="lognormal", mean=dict(dims=["t"], values=[6 + i for i in range(n)]), std=3),
-                    dict(kind="weibull", shape=1.5, scale=dict(dims=["t"], values=[5 + 2 * i for i in range(n)]))]
+                    dict(kind="weibull", shape=1.5, scale=dict(dims=["t"], values=[5 + 2 * i for i in range(n)])),
+                    # every distribution with BOTH parameters depending on the cohort (steeply, so that a table built with
+                    # the parameters of the wrong year differs visibly)
+                    dict(kind="normal", mean=dict(dims=["t"], values=[4 + 3 * i for i in range(n)]), std=dict(dims=["t"], values=[1.5 + (i % 3) for i in range(n)])),
+                    dict(kind="foldnorm", mean=dict(dims=["t"], values=[3 + 2.5 * i for i in range(n)]), std=dict(dims=["t"], values=[2 + ((2 * i) % 3) for i in range(n)])),
+                    dict(kind="lognormal", mean=dict(dims=["t"], values=[12 - (i % 4) * 2 for i in range(n)]), std=dict(dims=["t"], values=[2 + (i % 2) * 3 for i in range(n)])),
+                    dict(kind="weibull", shape=dict(dims=["t"], values=[1.2 + 0.4 * (i % 4) for i in range(n)]), scale=dict(dims=["t"], values=[14 - 1.5 * (i % 5) for i in range(n)]))]
             if extra:
                 l = extra[-1]
                 m = len(sd.EXTRA[l])
                 real.append(dict(kind="normal", mean=dict(dims=[l], values=[7 + 3 * i for i in range(m)]), std=dict(dims=[l, "t"], values=[2 + ((i * 7) % 3) for i in range(m * n)])))
+                real.append(dict(kind="foldnorm", mean=dict(dims=[l, "t"], values=[3 + ((i * 5) % 11) for i in range(m * n)]), std=dict(dims=["t", l], values=[2 + ((i * 3) % 4) for i in range(m * n)])))
+                real.append(dict(kind="weibull", shape=dict(dims=["t", l], values=[1.1 + 0.3 * ((i * 3) % 5) for i in range(m * n)]), scale=dict(dims=[l], values=[6 + 4 * i for i in range(m)])))
             for lt in real:
                 for npts in ((1, 2, 6) if tier == "thorough" else (1, 3)):
                     k += 1
